@@ -1,7 +1,7 @@
 // C07 — Every observed probe is reported to the mapper exactly once.
 #include "hist.hpp"
 
-enum { K_BURST = 20, K_ROUND = 21 };   // burst: a = first_id, count, target ; round: a = first seq
+enum { K_BURST = 20, K_ROUND = 21 };   // burst: a = first_id, count, target ; round: a = first seq, path override, re-observe a reported one, re-observe an undelivered one, Ethernet destination of the Queries
 
 struct ObsKey { uint64_t e, r; bool operator<(const ObsKey &o) const { return std::tie(e, r) < std::tie(o.e, o.r); } };   // keyed by the addresses themselves (two identities may stand for one address)
 
@@ -52,12 +52,14 @@ static Verdict run(const Case &c) {
         } else had_foreign = true;
     };
     // one Query; returns false on oracle failure
-    int bridged_override = -1;
+    int bridged_override = -1, query_edst = 0;
     auto query = [&](uint16_t seq, QResp &q) -> bool {
         Op op; op.kind = K_QUERY; op.a = {-1, seq};
         Shadow shq = sh;
         if (bridged_override >= 0) shq.bridged = bridged_override != 0;    // the rule is per Query frame: Ethernet source != real source => broadcast
         Built b = build_frame(h, op, shq);
+        // the Query is for this station when its real destination says so; the Ethernet destination may be another unicast address (a switch flooding) or broadcast
+        if (query_edst == 1) memcpy(&b.frame[0], other.b, 6); else if (query_edst == 2) memcpy(&b.frame[0], BCAST.b, 6);
         std::vector<Ev> tx = sends_only(w.deliver(ifi, b.frame));
         shadow_update_sem(sh, SEM_COMMAND, b);
         if (tx.size() != 1) { v.fail(fmt("Query seq %u answered by %zu frames, expected 1", seq, tx.size())); return false; }
@@ -87,6 +89,7 @@ static Verdict run(const Case &c) {
             case K_ROUND: {
                 rounds++;
                 bridged_override = (int)op.arg(1, -1);
+                query_edst = (int)op.arg(4, 0);
                 size_t k = obs.size();
                 maxk = std::max(maxk, (int)k);
                 std::vector<QDesc> got;
@@ -105,6 +108,18 @@ static Verdict run(const Case &c) {
                         Bytes f = mk_simple(own, dsc.esrc, 0, dsc.type ? OP_PROBE : OP_TRAIN, own, dsc.rsrc, 0);
                         (void)w.deliver(ifi, f);
                         reobserved.push_back(QDesc{dsc.type, dsc.rsrc, dsc.esrc, own});
+                    }
+                    // a station whose observation has NOT been delivered yet is seen again in the middle of the round: still one observation
+                    if (more && op.arg(3) > 0) {
+                        int64_t skip = op.arg(3);
+                        for (auto &kv : obs) {
+                            bool delivered = false;
+                            for (auto &g : got) if (g.rsrc == kv.second.rsrc && g.esrc == kv.second.esrc) { delivered = true; break; }
+                            if (delivered || --skip > 0) continue;
+                            (void)w.deliver(ifi, mk_simple(kv.second.edst, kv.second.esrc, 0, kv.second.type ? OP_PROBE : OP_TRAIN, own, kv.second.rsrc, 0));
+                            had_dup = true;
+                            break;
+                        }
                     }
                     seq = (uint16_t)(seq == 0xFFFF ? 1 : seq + 1);
                 }
@@ -202,7 +217,7 @@ int main(int argc, char **argv) {
                     c.ops.push_back(o);
                 }
             }
-            Op r; r.kind = K_ROUND; r.a = {*hg::seq_gen(), *gx::pick({-1, -1, -1, 0, 1}), *gx::pick({0, 0, 1, 5})};
+            Op r; r.kind = K_ROUND; r.a = {*hg::seq_gen(), *gx::pick({-1, -1, -1, 0, 1}), *gx::pick({0, 0, 1, 5}), *gx::pick({0, 0, 1, 2, 30}), *gx::pick({0, 0, 0, 1, 2})};
             c.ops.push_back(r);
             if (*gx::chance(35)) {   // Reset in between (no Query before it), then the mapper comes back and the same stations are seen again
                 int first = next_id;
